@@ -727,7 +727,7 @@ def zone_job(zone, job, cases, timeout=600):
     """run harness/zonework.py under TZ=zone"""
     import json, subprocess
     env = dict(os.environ, TZ=zone, PYTHONPATH=lib.REPO_SRC, PYTHONHASHSEED="0")
-    p = subprocess.run([sys.executable, os.path.join(lib.ROOT, "harness", "zonework.py")], input=json.dumps({"job": job, "cases": cases}),
+    p = subprocess.run([sys.executable] + lib.PYFLAGS + [os.path.join(lib.ROOT, "harness", "zonework.py")], input=json.dumps({"job": job, "cases": cases}),
                        capture_output=True, text=True, timeout=timeout, env=env)
     if p.returncode != 0: raise lib.BuildError("zone worker failed under TZ=%s: %s" % (zone, p.stderr.strip()[-300:]))
     return json.loads(p.stdout)
@@ -745,7 +745,7 @@ def run_threads(out, stream, module, fn, calls, expected, describe, startups=64,
     payloads = [json.dumps(job), json.dumps(dict(job, yield_lines=True, rounds=min(rounds, 20)))]
     def one(k):
         try:
-            p = subprocess.run([sys.executable, os.path.join(lib.ROOT, "harness", "threadwork.py")], input=payloads[k % 2], capture_output=True, text=True, timeout=timeout, env=env)
+            p = subprocess.run([sys.executable] + lib.PYFLAGS + [os.path.join(lib.ROOT, "harness", "threadwork.py")], input=payloads[k % 2], capture_output=True, text=True, timeout=timeout, env=env)
         except subprocess.TimeoutExpired:
             return {"bad": [{"call": None, "index": 0, "got": "never-returned (%d s)" % timeout, "expected": "an answer", "thread": -1, "round": 0, "repeat": 0}], "done": 0}
         if p.returncode != 0: raise lib.BuildError("thread worker failed: %s" % p.stderr.strip()[-300:])
